@@ -104,7 +104,7 @@ class JWERegistry:
         if name not in registry:
             raise UnsupportedAlgorithmError(f'Algorithm of "{name}" is not supported')
 
-        if self.allowed:
+        if self.allowed is not None:
             if name not in self.allowed:
                 raise UnsupportedAlgorithmError(f'Algorithm of "{name}" is not allowed')
         else:
